@@ -96,9 +96,9 @@ def docOfSpec (spec : String) : Option Val :=
   let body := (spec.drop 2).toString
   if spec.startsWith "t:" then (parseTerm body.toList).map (·.1)
   else if spec.startsWith "m:" then
-    match MD.run {} 100 .all (unhex body) with | (.ok, v, _) => some v | _ => none
+    match MD.run {} 100 .all (unhex body) with | (.fuel, _, _) => none | (_, v, _) => some v
   else if spec.startsWith "j:" then
-    match run {} 100 (unhex body) with | (.ok, v, _) => some v | _ => none
+    match run {} 100 (unhex body) with | (.fuel, _, _) => none | (_, v, _) => some v
   else none
 
 partial def Val.nesting : Val → Nat
@@ -159,7 +159,7 @@ def handle (st : DState) (ws : List String) : String × DState :=
           let cfg := cfgOfBits cfgs.toNat!
           let text := if op == "jsonbuf" then JSer.compact cfg v else if op == "prettybuf" then JSer.pretty cfg 0 v else MD.ser v
           let o := JSer.toBuffer text cap.toNat! (op != "mpbuf")
-          pure s!"ret={o.ret} buf={hexOrDash (JSer.bufferAfter text cap.toNat! (op != "mpbuf") 0xAA)} guard-ok"
+          pure s!"ret={o.ret} buf={hexOrDash (JSer.bufferAfter text cap.toNat! (op != "mpbuf") 0xAA)} guard-ok buf-ok"
       else if op == "mpstream" then
         -- mpstream <lim> <chunk> <hex>
         pure (streamLoop (fun bs => MD.run {} cfgs.toNat! .all bs) (unhex spec) 0 40 "")
